@@ -38,8 +38,8 @@ Definition no_alive (m : mstate) : bool :=
 Definition mon_step (strict : bool) (res : Z) (m : mstate) (e : event) : option mstate :=
   match e with
   | EvCreate i t iv =>
-      if (m_clock m <=? t) && is_none (m_cur m) && (i =? m_count m)%nat && (0 <=? iv) then
-        Some (mk_mstate t None (upd (m_st m) i (TAlive t iv (t + iv))) (m_ver m) (S (m_count m)))
+      if (m_clock m <=? t) && (i =? m_count m)%nat && (0 <=? iv) then
+        Some (mk_mstate t (m_cur m) (upd (m_st m) i (TAlive t iv (t + iv))) (m_ver m) (S (m_count m)))
       else None
   | EvTick i t due v =>
       match m_cur m, m_st m i with
